@@ -177,14 +177,16 @@ func vfH_C15_oob_meets_close() {
 	err := s.SendOOB(vfBytes("oob", 3))
 	vfReach("post")
 	queued := len(s.chPostProcessing) - queued0
-	vfAssert("c15/oob/queued-at-most-once", queued == 0 || queued == 1)
+	// (the queue is only observable while the post-processing goroutine is not running: under gse
+	// it is driven by the harness; natively it drains the queue concurrently, hence vfGhost)
+	vfAssert("c15/oob/queued-at-most-once", vfGhost(queued == 0 || queued == 1))
 	// one acquisition: either it sits in the queue (live +1) or it was recycled (live +0)
 	vfAssert("c15/oob/buffer-has-exactly-one-owner", vfGhost(vfPoolLive() == live0+queued))
 	if !closed {
 		vfAssert("c15/oob/live-session-never-fails", err == nil)
 	}
 	if full && !closed {
-		vfAssert("c15/oob/full-queue-drops", queued == 0)
+		vfAssert("c15/oob/full-queue-drops", vfGhost(queued == 0))
 	}
 }
 
